@@ -107,6 +107,9 @@ class C09(Prop):
                 yield R.case_rt(f"os_name == {_lit_token(rng)}" + (" and extra == 'A_b'" if rng.random() < 0.3 else ""))
             else:
                 pos = rng.randrange(len(s) + 1)
+                if rng.random() < 0.7:       # bias to token starts
+                    starts = [i for i in range(len(s) + 1) if i == 0 or i == len(s) or s[i - 1] in " \t()'\"=<>~!" or s[i] in " \t()'\"=<>~!\n"]
+                    pos = rng.choice(starts)
                 yield ("mk.match", [rng.choice(RULES), core.enc(s), str(pos)])
 
     def complete(self, op, args):
@@ -147,6 +150,8 @@ class C09(Prop):
             if "'" in core.dec(out.split(" ")[1]):
                 feats += "Q"
             return "rt:ok:" + feats + ":" + " ".join(out.split(" ")[2:3]) + out[-2:]
+        if op == "mk.lit":
+            return "lit:" + (out if not out.startswith("ok") else "ok" + (":escape" if "5c" in args[0].split(".") else ""))
         return op[3:] + ":" + out[:24]
 
     def judge(self, op, args, real, model, driver):
